@@ -127,6 +127,35 @@ impl<R: io::Read> Parse<R> for Option<i64> {
 }
 
 
+//----------- read_vec -------------------------------------------------------
+
+/// Reads exactly `len` bytes into a vec.
+///
+/// The length has been read from the file and may be garbage. We therefore
+/// don’t allocate the vec up front but let it grow while reading, so that a
+/// bogus length results in an unexpected EOF error rather than a giant
+/// allocation.
+fn read_vec<R: io::Read>(
+    source: &mut R, len: usize
+) -> Result<Vec<u8>, ParseError> {
+    let mut res = Vec::new();
+    let limit = u64::try_from(len).map_err(|_| {
+        ParseError::format("data block too large for this system")
+    })?;
+    let read = io::Read::read_to_end(
+        &mut io::Read::take(&mut *source, limit), &mut res
+    )?;
+    if read != len {
+        return Err(
+            io::Error::new(
+                io::ErrorKind::UnexpectedEof, "unexpected end of data"
+            ).into()
+        )
+    }
+    Ok(res)
+}
+
+
 //----------- uri::Rsync -----------------------------------------------------
 //
 // Encoded as a u32 for the length and then that many bytes. If the length
@@ -146,8 +175,7 @@ impl<R: io::Read> Parse<R> for uri::Rsync {
         let len = usize::try_from(u32::parse(source)?).map_err(|_| {
             ParseError::format("URI too large for this system")
         })?;
-        let mut bits = vec![0u8; len];
-        source.read_exact(&mut bits)?;
+        let bits = read_vec(source, len)?;
         Self::from_bytes(bits.into()).map_err(|err| {
             ParseError::format(format!("bad URI: {err}"))
         })
@@ -174,8 +202,7 @@ impl<R: io::Read> Parse<R> for uri::Https {
         let len = usize::try_from(u32::parse(source)?).map_err(|_| {
             ParseError::format("URI too large for this system")
         })?;
-        let mut bits = vec![0u8; len];
-        source.read_exact(&mut bits)?;
+        let bits = read_vec(source, len)?;
         Self::from_bytes(bits.into()).map_err(|err| {
             ParseError::format(format!("bad URI: {err}"))
         })
@@ -211,8 +238,7 @@ impl<R: io::Read> Parse<R> for Option<uri::Https> {
         let len = usize::try_from(len).map_err(|_| {
             ParseError::format("URI too large for this system")
         })?;
-        let mut bits = vec![0u8; len];
-        source.read_exact(&mut bits)?;
+        let bits = read_vec(source, len)?;
         uri::Https::from_bytes(bits.into()).map_err(|err| {
             ParseError::format(format!("bad URI: {err}"))
         }).map(Some)
@@ -239,8 +265,7 @@ impl<R: io::Read> Parse<R> for Bytes {
         let len = usize::try_from(u64::parse(source)?).map_err(|_| {
             ParseError::format("data block too large for this system")
         })?;
-        let mut bits = vec![0u8; len];
-        source.read_exact(&mut bits)?;
+        let bits = read_vec(source, len)?;
         Ok(bits.into())
     }
 }
@@ -271,8 +296,7 @@ impl<R: io::Read> Parse<R> for Option<Bytes> {
         let len = usize::try_from(len).map_err(|_| {
             ParseError::format("data block large for this system")
         })?;
-        let mut bits = vec![0u8; len];
-        source.read_exact(&mut bits)?;
+        let bits = read_vec(source, len)?;
         Ok(Some(bits.into()))
     }
 }
